@@ -113,8 +113,6 @@ def main():
         'not_applicable': na,
         'notes': 'All checks run the real eqsig sources from /repo (EQSIG_SRC) with fresh byte-code; nothing is sampled in the deciding step. Known findings: known_findings.txt. Exit 2 = check could not do its job (never 0).',
     }
-    if not na:
-        del man['not_applicable']
     with open(os.path.join(HERE, 'MANIFEST.json'), 'w') as f:
         json.dump(man, f, indent=1)
     try:
